@@ -2,6 +2,7 @@
 import io
 
 from ..framework import Check
+from .c13 import nl_lines
 from .. import fieldlib as fl, reglib, lib
 from .c04 import gen_line
 from .c05 import gen_data, build_file
@@ -107,8 +108,8 @@ class CHECK(Check):
         x, y, y2 = obs["x"], obs["y"], obs["y2"]
         if y2 != y:
             return "y = write(read(x)) is not a fixed point: write(read(y)) differs"
-        dx = [l for l in x.splitlines(keepends=True) if reglib.ref_dispatch(case["regdefs"], l) < 0]
-        dy = [l for l in y.splitlines(keepends=True) if reglib.ref_dispatch(case["regdefs"], l) < 0]
+        dx = [l for l in nl_lines(x) if reglib.ref_dispatch(case["regdefs"], l) < 0]
+        dy = [l for l in nl_lines(y) if reglib.ref_dispatch(case["regdefs"], l) < 0]
         if dx != dy:
             return "lines matching no declared register are not preserved verbatim in order"
         if case["kind"] == "written" and y != x:
@@ -126,7 +127,7 @@ class CHECK(Check):
 
     def shrink(self, case):
         if case["kind"] == "content":
-            lines = case["content"].splitlines(keepends=True)
+            lines = nl_lines(case["content"])
             if len(lines) > 1:
                 for i in range(len(lines)):
                     c = dict(case)
